@@ -63,7 +63,9 @@ func (s Seq) String() string {
 }
 
 // invariant: reported == actually retrievable (== directory for the file backend), nothing negative
-func invariant(k *cachekit.Kit, step string) *ev.Failure {
+func invariant(k *cachekit.Kit, step string) *ev.Failure { return invariantN(k, step, universe) }
+
+func invariantN(k *cachekit.Kit, step string, universe int) *ev.Failure {
 	a := k.Measure(universe)
 	rb, re := cachekit.Reported()
 	if len(a.Broken) > 0 {
